@@ -99,9 +99,26 @@ def tla_value(v):
     raise TypeError(v)
 
 
-def run(module, cfg, name=None, workers=16, timeout=600, simulate=None, depth=None, seed=None,
-        env=None, coverage=False, deadlock=None, dfs=False, dump=None, extra=(), heap="8g",
-        specdir=None):
+def run(module, cfg, name=None, **kw):
+    """Run TLC on specs/<module>.tla with cfg.  A TLC crash that is not a verdict ("TLC threw an unexpected exception":
+    seen once, not reproducible, under heavy machine load) is retried once; the failed output is kept as tlc.out.crash"""
+    try:
+        return _run(module, cfg, name=name, **kw)
+    except TLCError as e:
+        if "unexpected exception" not in str(e) and "OutOfMemory" not in str(e):
+            raise
+        nm = name or (module + "_" + os.path.splitext(os.path.basename(cfg))[0])
+        try:
+            shutil.copy(os.path.join(OUT, "tlc", nm, "tlc.out"), os.path.join(OUT, "tlc", nm + ".crash.out"))
+        except OSError:
+            pass
+        time.sleep(1.0)
+        return _run(module, cfg, name=name, **kw)
+
+
+def _run(module, cfg, name=None, workers=16, timeout=600, simulate=None, depth=None, seed=None,
+         env=None, coverage=False, deadlock=None, dfs=False, dump=None, extra=(), heap="8g",
+         specdir=None):
     """Run TLC on specs/<module>.tla with cfg (path, absolute or relative to specs/)."""
     specdir = specdir or SPECS
     name = name or (module + "_" + os.path.splitext(os.path.basename(cfg))[0])
